@@ -6,7 +6,16 @@
 (*      operand op operand op ... operand                                  *)
 (* where an operand is an atom <<"atom", x>>, an application              *)
 (* <<"app", f, operand>>, a                                                *)
-(* parenthesised chain <<"paren", tokens>> or <<"not", operand>>.          *)
+(* parenthesised chain <<"paren", tokens>> or <<"not", operand>>, or - as   *)
+(* the LAST operand of its chain only - one of the terms that extend as    *)
+(* far as possible: a lambda <<"lam", x, body tokens>> (fun x -> body) or  *)
+(* a one-line conditional <<"ifx", cond tokens, then tokens, else tokens>>.*)
+(* Their body / else branch takes every operator that follows, whatever    *)
+(* its rank:  a * if p then b else c + d  is  a * (if p then b else (c+d)),*)
+(* x |> fun y -> y + 1 |> g  is  x |> (fun y -> ((y + 1) |> g)).           *)
+(* Anywhere else they are written in parentheses.  Part 3 is fc's term     *)
+(* parser over the FLAT token text; TLC checks that it reads every         *)
+(* enumerated chain as Machine / Declarative do.                           *)
 (*                                                                         *)
 (* Two definitions of the tree such a chain denotes:                       *)
 (*   Machine     -- the precedence-climbing loop of fc's parser            *)
@@ -48,6 +57,8 @@ TermTree(t) ==
          [] t[1] = "app"   -> <<"app", t[2], TermTree(t[3])>>
          [] t[1] = "not"   -> <<"not", TermTree(t[2])>>
          [] t[1] = "paren" -> ParseE(t[2], 1, 1)[1]        \* parentheses only group
+         [] t[1] = "lam"   -> <<"lam", t[2], ParseE(t[3], 1, 1)[1]>>
+         [] t[1] = "ifx"   -> <<"if", ParseE(t[2], 1, 1)[1], ParseE(t[3], 1, 1)[1], ParseE(t[4], 1, 1)[1]>>
 
 \* returns <<tree, next position>>
 ParseE(toks, pos, minPrec) ==
@@ -75,6 +86,8 @@ DeclTerm(t) ==
          [] t[1] = "app"   -> <<"app", t[2], DeclTerm(t[3])>>
          [] t[1] = "not"   -> <<"not", DeclTerm(t[2])>>
          [] t[1] = "paren" -> Declarative(t[2])
+         [] t[1] = "lam"   -> <<"lam", t[2], Declarative(t[3])>>
+         [] t[1] = "ifx"   -> <<"if", Declarative(t[2]), Declarative(t[3]), Declarative(t[4])>>
 
 Declarative(toks) ==
   IF Len(toks) = 1 THEN DeclTerm(toks[1])
@@ -82,6 +95,51 @@ Declarative(toks) ==
            minRank == CHOOSE r \in {Rank(toks[i]) : i \in opPos} : \A i \in opPos : r <= Rank(toks[i])
            root == CHOOSE i \in opPos : Rank(toks[i]) = minRank /\ \A j \in opPos : Rank(toks[j]) = minRank => j <= i
        IN Bin(toks[root], Declarative(SubSeq(toks, 1, root - 1)), Declarative(SubSeq(toks, root + 1, Len(toks))))
+
+---------------------------------------------------------------------------
+(* Part 3: the text and fc's term parser over it.  Flat(toks) is the token text of a chain (what the harness writes);       *)
+(* FExpr is parseExprWithPrec / parseTerm / parseAtom over that text: a term is `not` TERM, `fun` x `->` EXPR, `if` EXPR      *)
+(* `then` EXPR `else` EXPR, or one or more atoms (a name applied to atoms); an atom is a name or ( EXPR ).                    *)
+Keywords == {"not", "fun", "->", "if", "then", "else", "(", ")"}
+RECURSIVE Flat(_), FlatOperand(_)
+FlatOperand(t) ==
+  CASE t[1] = "atom"  -> <<t[2]>>
+    [] t[1] = "app"   -> <<t[2]>> \o (IF t[3][1] = "atom" THEN <<t[3][2]>> ELSE <<"(">> \o FlatOperand(t[3]) \o <<")">>)
+    [] t[1] = "not"   -> <<"not">> \o FlatOperand(t[2])
+    [] t[1] = "paren" -> <<"(">> \o Flat(t[2]) \o <<")">>
+    [] t[1] = "lam"   -> <<"fun", t[2], "->">> \o Flat(t[3])
+    [] t[1] = "ifx"   -> <<"if">> \o Flat(t[2]) \o <<"then">> \o Flat(t[3]) \o <<"else">> \o Flat(t[4])
+Flat(toks) == IF toks = <<>> THEN <<>>
+              ELSE (IF Len(toks) % 2 = 1 THEN Flat(SubSeq(toks, 1, Len(toks) - 1)) \o FlatOperand(toks[Len(toks)])
+                    ELSE Flat(SubSeq(toks, 1, Len(toks) - 1)) \o <<toks[Len(toks)]>>)
+
+StartsAtom(ts, p) == p <= Len(ts) /\ ts[p] \notin AllOps /\ (ts[p] \notin Keywords \/ ts[p] = "(")
+RECURSIVE FExpr(_, _, _), FBinAfter(_, _, _, _), FTerm(_, _), FAtom(_, _), FArgs(_, _)
+FAtom(ts, p) == IF ts[p] = "(" THEN LET e == FExpr(ts, p + 1, 1) IN <<e[1], e[2] + 1>>      \* ( EXPR )
+                ELSE <<A(ts[p]), p + 1>>
+FArgs(ts, p) == IF StartsAtom(ts, p) THEN LET a == FAtom(ts, p)
+                                               r == FArgs(ts, a[2]) IN <<<<a[1]>> \o r[1], r[2]>>
+                ELSE <<<<>>, p>>
+FTerm(ts, p) ==
+  CASE ts[p] = "not" -> LET r == FTerm(ts, p + 1) IN <<<<"not", r[1]>>, r[2]>>
+    [] ts[p] = "fun" -> LET b == FExpr(ts, p + 3, 1) IN <<<<"lam", ts[p + 1], b[1]>>, b[2]>>          \* the body: a whole expression
+    [] ts[p] = "if"  -> LET c == FExpr(ts, p + 1, 1)
+                            t == FExpr(ts, c[2] + 1, 1)
+                            e == FExpr(ts, t[2] + 1, 1)                                                \* the else branch: a whole expression
+                        IN <<<<"if", c[1], t[1], e[1]>>, e[2]>>
+    [] OTHER -> LET h == FAtom(ts, p)
+                    as == FArgs(ts, h[2])
+                IN IF as[1] = <<>> THEN h
+                   ELSE <<<<"app", h[1][2], as[1][1]>>, as[2]>>                                        \* (one argument in this model)
+FExpr(ts, p, minPrec) == LET t == FTerm(ts, p) IN FBinAfter(ts, t[2], minPrec, t[1])
+FBinAfter(ts, p, minPrec, cur) ==
+  IF p <= Len(ts) /\ ts[p] \in AllOps
+  THEN LET r == Rank(ts[p]) IN
+       IF r < minPrec THEN <<cur, p>>
+       ELSE LET rhs == FExpr(ts, p + 1, r + 1)
+            IN FBinAfter(ts, rhs[2], minPrec, Bin(ts[p], cur, rhs[1]))
+  ELSE <<cur, p>>
+TextParse(toks) == FExpr(Flat(toks), 1, 1)[1]
 
 ---------------------------------------------------------------------------
 (* chains: operands named a, b, c, ... in order *)
